@@ -202,7 +202,7 @@ def rec_samples(vc, rid, name, base, tr, rng, n):
 def rec_cond(vc, rid, name, base, tr, q, rng):
     t = tmodel(vc, base, tr)
     r = dict(id=rid, kind="cond", exc="", name=name, q=str(q), hooked=False, k=-1, atfloor=False, fstop=True, fprev=True,
-             tail=0, sampled=False, ks4=0, n=1, cdf4=0, ncdf=1, icdf4=0, nicdf=1)
+             tail=0, sampled=False, ks4=0, n=1, cdf4=0, ncdf=1, icdf4=0, nicdf=1, intsame=True)
     hs = float(base.distributions[0].icdf(q))
     sink = []
     try:
@@ -245,6 +245,11 @@ def rec_cond(vc, rid, name, base, tr, q, rng):
             with warnings.catch_warnings():
                 warnings.simplefilter("ignore")
                 pc = np.asarray(t.conditional_cdf(xq, 1, [[hs]] * 3, random_state=seed + 1), dtype=float)
+                # integer-typed evaluation points must give the same numbers as the same points as floats
+                xint = np.array([int(v) for v in np.ceil(xq)])
+                pci = np.asarray(t.conditional_cdf(xint, 1, [[hs]] * 3, random_state=seed + 1), dtype=float)
+                pcf = np.asarray(t.conditional_cdf(xint.astype(float), 1, [[hs]] * 3, random_state=seed + 1), dtype=float)
+                r["intsame"] = bool(np.array_equal(pci, pcf))
                 ps = np.array([0.1, 0.5, 0.9])
                 xi = np.asarray(t.conditional_icdf(ps, 1, [[hs]] * 3, random_state=seed + 2), dtype=float)
             r.update(cdf4=clampq(np.max(np.abs(pc - exact_tz_cdf(base, xq, hs))), 1e4), ncdf=100000,
@@ -264,7 +269,7 @@ def rec_cond_history(vc, rid, name, base0, tr, rng):
     base = copy.deepcopy(base0)
     t = tmodel(vc, base, tr)
     r = dict(id=rid, kind="cond", exc="", name=name + " after-change", q="0.5", hooked=False, k=-1, atfloor=False, fstop=True,
-             fprev=True, tail=0, sampled=False, ks4=0, n=1, cdf4=0, ncdf=1, icdf4=0, nicdf=1)
+             fprev=True, tail=0, sampled=False, ks4=0, n=1, cdf4=0, ncdf=1, icdf4=0, nicdf=1, intsame=True)
     try:
         hs = float(base.distributions[0].icdf(0.5))
         seed = int(rng.integers(1, 2**31))
